@@ -35,7 +35,7 @@ class C19(S4UCheck):
         plan = gen.base_plan(seed, rng=r, factory='raw')
         ti = r.chance(0.25)
         nh = workload.platform(plan, r, multicore=not ti)
-        workload.actors(plan, r, nh, bounds=not ti, prios=not ti, suspend=not ti)
+        workload.actors(plan, r, nh, bounds=not ti, prios=not ti, suspend=not ti, threads=not ti)
         plan['ti'] = ti
         plan['profiles'] = []
         if not ti and r.chance(0.4):
